@@ -110,6 +110,11 @@ struct Peer {
     last_put: Option<(u64, u64)>,
     /// put that referred to an image which was never transmitted
     untransmitted_put: Option<u64>,
+    /// image ids for which the handler has been told (error reply) that the terminal does not
+    /// hold them and which it has not transmitted again since
+    invalidated: std::collections::BTreeSet<u64>,
+    /// put for an invalidated image
+    stale_put: Option<u64>,
 }
 
 impl Peer {
@@ -233,6 +238,9 @@ impl Peer {
                     return Err(format!("placement id {placement} out of range"));
                 }
                 self.last_put = Some((id, placement));
+                if self.invalidated.contains(&id) {
+                    self.stale_put = Some(id);
+                }
                 if !self.images.contains_key(&id) {
                     if !self.transmissions.contains_key(&id) {
                         self.untransmitted_put = Some(id);
@@ -289,6 +297,7 @@ impl Peer {
             return Err(format!("image {}: payload of {} bytes for declared {}x{} RGBA", t.id, data.len(), t.width, t.height));
         }
         self.images.insert(t.id, PeerImage { width: t.width, height: t.height, data });
+        self.invalidated.remove(&t.id);
         *self.transmissions.entry(t.id).or_default() += 1;
         if t.quiet == 0 {
             self.reply(t.id, None, "OK");
@@ -558,13 +567,24 @@ fn run(ctx: &Ctx, src: &mut Src) -> WorldResult {
             }
             sink = FailingSink { buf: Vec::new(), fail_at: None, failed: false };
             for event in events {
+                let mut errored: Option<u64> = None;
                 if let TerminalEvent::KittyImage { id, error: Some(_), .. } = &event {
                     *error_replies.entry(*id).or_default() += 1;
                     src.probe("error-reply-handled");
+                    errored = Some(*id);
                 }
+                let before = sink.buf.len();
                 match handler.handle(&mut sink, &event) {
                     Ok(_) => {}
                     Err(err) => return Err(Violation::new(P, "C11.handle-error", "handle-error", format!("handle failed: {err:?}"))),
+                }
+                if let Some(id) = errored {
+                    // the handler now knows that the terminal rejected this image; unless it
+                    // re-transmits (which clears the mark when the peer sees it) any later
+                    // placement of it refers to an image that is not there
+                    if sink.buf.len() == before {
+                        peer.invalidated.insert(id);
+                    }
                 }
             }
             if !sink.buf.is_empty() {
@@ -574,6 +594,16 @@ fn run(ctx: &Ctx, src: &mut Src) -> WorldResult {
         if let (Some(key), Some((pid, p))) = (drew, peer.last_put) {
             if pid == key.0 && !sink.failed && !call_failed {
                 pos_to_p.insert(key, p);
+            }
+        }
+        if let Some(id) = peer.stale_put.take() {
+            if !tainted {
+                return Err(Violation::new(
+                    P,
+                    "C11.put-untransmitted",
+                    "placement-after-error-reply-without-retransmission",
+                    format!("operation #{step}: a put command refers to image id={id} although the terminal had answered with an error for it and it was not transmitted again"),
+                ));
             }
         }
         if let Some(id) = peer.untransmitted_put.take() {
